@@ -8,7 +8,7 @@ BOUNDS = {
              "separately, as an IEEE-754 double incl. NaN/inf, position / wash scheme / DiTi index / ranges / multi_disp as unbounded symbolic integers "
              "plus non-integer representatives (1.0, True, '1', None, 2.5), tips {default, 3, (1,2), T4, 0, 9, 2.5, Tip.Any in a list}, "
              "exclusion lists of <=2 symbolic integers, both directions plus an invalid one, worklist max_volume symbolic, DiTi mode on/off, "
-             "four preceding-record contexts for set_diti; pass-through via aspirate / distribute keyword arguments",
+             "four preceding-record contexts for set_diti; pass-through via aspirate / distribute keyword arguments; tips also as one-shot iterators / generators; a reagent distribution preceded by an identical (equally reduced) one on the same worklist",
     "thorough": "comments up to length 6, exclusion lists of <=3, pass-through via dispense and transfer as well",
 }
 OUTSIDE = "strings longer than 40 characters, non-printable characters other than newline/tab in comments, the numeric value of grid/site-like fields that the property does not constrain (position 0, range ends of R records)"
